@@ -206,6 +206,52 @@ def checkedConvert (tag : OvTag) (D : IntTy) (x : TV) : Res TV :=
   let neg := decide (negDigits D < negDigits S) && cCmp .lt x (convert S (tlow D))
   if neg then react tag false D else .ok (convert D x)
 
+/-! ### conversions in which an overflow_integer takes part as a number
+
+`_impl::wrapper<Rep, Tag>`'s converting constructors (`wrapper/definition.h`) hand the source's representation to
+`convert<Tag, Rep, SrcTag>` — the tagged conversion above, with `common_overflow_tag_t<Tag, SrcTag>`:
+overflow_integer → overflow_integer of the same tag (two different overflow tags have no common tag: ill-formed),
+overflow_integer → built-in (`explicit operator S()`: `convert<native_tag, S, Tag>`), built-in or unrelated
+wrapper → overflow_integer (`convert<Tag, Rep, native_tag>`).  Every one of them is `checkedConvert tag D (S, v)`
+with `S` the source's (innermost) integer type — of any width: `elastic_integer<20>` is a 21-bit signed source. -/
+
+/-- the converting constructor / conversion operator of `overflow_integer`, between representation types -/
+def wrapperConvert (tag : OvTag) (D : IntTy) (x : TV) : Res TV := checkedConvert tag D x
+
+/-! ### `scaled_integer` conversion between different radixes into an overflow_integer representation
+(`scaled/convert_operator.h`, "integer -> integer (different radixes)")
+
+    auto result{from_value<Result>(from)};     // overflow_integer<Input, Tag>: the SOURCE's integer type under the tag
+    if (SrcExponent  > 0) result = scale<SrcExponent,   SrcRadix >(result);
+    if (DestExponent < 0) result = scale<-DestExponent, DestRadix>(result);
+    if (SrcExponent  < 0) result = scale<SrcExponent,   SrcRadix >(result);
+    if (DestExponent > 0) result = scale<-DestExponent, DestRadix>(result);
+    return result;                             // then the wrapper's constructor converts to Result under the tag
+
+`scale<k, radix>(overflow_integer<T>)` is `s * power_value<S, k, radix>()` / `s / power_value<S, -k, radix>()`
+under the tag (the power is an overflow_integer over the promoted type; it must fit: `static_assert`), and the
+assignment back to `result` is the tagged conversion to `T`. -/
+
+/-- one `result = scale<k, radix>(result)` on a variable of type `overflow_integer<T, tag>` -/
+def scaleStep (path : Path) (tag : OvTag) (T : IntTy) (k : Int) (radix : Nat) (t : TV) : Res TV :=
+  if k = 0 then .ok t else
+  let P := promote T
+  let p : Int := (radix : Int) ^ k.natAbs
+  if !P.inRange p then .ill "power_value: attempted operation will result in overflow" else do
+    let r ← checkedBin path tag (if k > 0 then .mul else .div) t (P, p)
+    checkedConvert tag T r
+
+/-- `scaled_integer<overflow_integer<D, tag>, power<eD, rD>>{scaled_integer<S, power<eS, rS>>}`, `rS ≠ rD`:
+the representation value of the result -/
+def radixConvert (path : Path) (tag : OvTag) (S : IntTy) (eS : Int) (rS : Nat) (D : IntTy) (eD : Int) (rD : Nat)
+    (v : Int) : Res TV := do
+  let t0 : TV := (S, v)
+  let t1 ← if eS > 0 then scaleStep path tag S eS rS t0 else pure t0
+  let t2 ← if eD < 0 then scaleStep path tag S (-eD) rD t1 else pure t1
+  let t3 ← if eS < 0 then scaleStep path tag S eS rS t2 else pure t2
+  let t4 ← if eD > 0 then scaleStep path tag S (-eD) rD t3 else pure t3
+  checkedConvert tag D t4
+
 /-! ### generic layer interface used by `CnlModel.Layered` (representations that are built-in
 integers; other representations only under the native tag) -/
 
